@@ -327,6 +327,19 @@ Proof.
     cbn [is_kwstart is_key] in H4. rewrite H4. rewrite E1 by lia. reflexivity.
 Qed.
 
+(* f(x for x in y): a bare generator expression as the only argument *)
+Lemma Ev_args_gen ts a rest fn gens r2 :
+  hd_is ")" ts = false -> hd_is "**" ts = false -> hd_is "*" ts = false -> is_kwstart ts = false ->
+  Ev (MExpr TOP) ts (a, rest) -> hd_is "for" rest = true ->
+  Ev (MGens []) rest (GeneratorExp fn gens, PK ")" :: r2) ->
+  Ev (MArgs [] []) ts (args_carrier [GeneratorExp a gens] [], r2).
+Proof.
+  intros H1 H2 H3 H4 [f1 E1] Hfor [f2 E2].
+  ev_start (Nat.max f1 f2). rewrite H1, H2, H3.
+  destruct ts as [|[i|c|s] [|[i2|c2|s2] r0]]; try (rewrite E1 by lia; rewrite Hfor; rewrite E2 by lia; reflexivity).
+  cbn [is_kwstart is_key] in H4. rewrite H4. rewrite E1 by lia. rewrite Hfor. rewrite E2 by lia. reflexivity.
+Qed.
+
 (* ---------- comprehension clauses ---------- *)
 Lemma Ev_atom_listcomp r x gs r' : Ev (MElems "]" [] false) r (GeneratorExp x gs, r') -> Ev MAtom (PK "[" :: r) (ListComp x gs, r').
 Proof.
@@ -714,7 +727,7 @@ Proof.
     apply (head_ok_child e); [exact (ec_nostar _ Hc)|]. apply IHe. exact (ec_core _ Hc).
   - (* Subscript *) apply andb_prop in Hc as [Hc1 _]. rewrite <- app_assoc.
     apply (head_ok_child e1); [exact (ec_nostar _ Hc1)|]. apply IHe1. exact (ec_core _ Hc1).
-  - (* Call *) apply andb_prop in Hc as [Hc _]. apply andb_prop in Hc as [Hc1 _]. rewrite <- app_assoc.
+  - (* Call *) apply andb_prop in Hc as [Hc1 _]. rewrite <- app_assoc.
     apply (head_ok_child e); [exact (ec_nostar _ Hc1)|]. apply IHe. exact (ec_core _ Hc1).
   - (* NamedExpr *) eexists _, _. split; [reflexivity|]. split; [reflexivity|discriminate].
   - (* Lambda *) eexists _, _. split; [reflexivity|]. split; [reflexivity|discriminate].
@@ -767,7 +780,7 @@ Proof.
   - (* Attribute *) rewrite <- app_assoc. apply pparen_not. intros _. apply IHe; [exact (ec_core _ Hc)|vm_compute; lia].
   - (* Subscript *) apply andb_prop in Hc as [Hc1 _]. rewrite <- app_assoc.
     apply IHe1; [exact (ec_core _ Hc1)|vm_compute; lia].
-  - (* Call *) apply andb_prop in Hc as [Hc _]. apply andb_prop in Hc as [Hc1 _]. rewrite <- app_assoc.
+  - (* Call *) apply andb_prop in Hc as [Hc1 _]. rewrite <- app_assoc.
     apply IHe; [exact (ec_core _ Hc1)|vm_compute; lia].
   - (* IfExp *) exfalso. vm_compute in Hb, Hs. lia.
 Qed.
@@ -792,7 +805,7 @@ Proof.
   - (* Attribute *) rewrite <- app_assoc. apply pparen_nokw. intros _. apply IHe; [exact (ec_core _ Hc)|reflexivity].
   - (* Subscript *) apply andb_prop in Hc as [Hc1 _]. rewrite <- app_assoc.
     apply IHe1; [exact (ec_core _ Hc1)|reflexivity].
-  - (* Call *) apply andb_prop in Hc as [Hc _]. apply andb_prop in Hc as [Hc1 _]. rewrite <- app_assoc.
+  - (* Call *) apply andb_prop in Hc as [Hc1 _]. rewrite <- app_assoc.
     apply IHe; [exact (ec_core _ Hc1)|reflexivity].
   - (* IfExp *) apply andb_prop in Hc as [Hc _]. apply andb_prop in Hc as [_ Hc2]. rewrite <- app_assoc.
     apply IHe2; [exact (ec_core _ Hc2)|reflexivity].
@@ -1458,9 +1471,15 @@ Proof. intros H. apply andb_prop in H. exact H. Qed.
    slice (which is not an expression on its own), for its parts *)
 Definition oQ (o : option expr) : Prop :=
   match o with Some x => core x && negb (is_starred x) = true -> opP x | None => True end.
+(* a generator expression is read back in the two positions where it is printed: inside parentheses of its own, and bare as
+   the only argument of a call *)
+Definition gen_stmt (e : expr) : Prop :=
+  (forall rest, Ev (MElems ")" [] false) (pbody e ++ PK ")" :: rest) (e, rest)) /\
+  (forall rest, Ev (MArgs [] []) (pbody e ++ PK ")" :: rest) (args_carrier [e] [], rest)).
 Definition P_stmt (e : expr) : Prop :=
   match e with
   | Slice a b c => oQ a /\ oQ b /\ oQ c
+  | GeneratorExp _ _ => gen_core e = true -> gen_stmt e
   | _ => core e = true -> match e with Starred v => A_stmt v | _ => A_stmt e end
   end.
 
@@ -1510,6 +1529,17 @@ Proof.
   - split.
     + apply P_use; [exact Pi|]. rewrite Hci, Hni. reflexivity.
     + apply Forall_P_ops; assumption.
+Qed.
+
+Lemma core_call f args kws : core (Call f args kws) = true ->
+  ecore f = true /\
+  ((exists x gs, args = [GeneratorExp x gs] /\ kws = [] /\ gen_core (GeneratorExp x gs) = true) \/
+   (forallb core args = true /\ forallb (fun kw => core (snd kw) && negb (is_starred (snd kw))) kws = true)).
+Proof.
+  cbn [core]. intros H. apply andb_prop in H as [Hf Hm]. split; [exact Hf|].
+  destruct args as [|x [|y t]]; destruct kws as [|k kt]; try destruct x;
+    try (right; apply andb_prop in Hm; exact Hm).
+  left. eexists _, _. split; [reflexivity|]. split; [reflexivity|exact Hm].
 Qed.
 
 Theorem A_all : forall e, P_stmt e.
@@ -1702,9 +1732,49 @@ Proof.
     assert (G : forall o, Po P_stmt o -> oQ o).
     { intros [x|] Hx; [|exact I]. cbn [Po oQ] in *. intros Hcx. apply P_use; assumption. }
     split; [apply G; exact H|]. split; [apply G; exact H0|apply G; exact H1].
-  - (* Call *) apply andb_prop in Hc as [Hc Hck]. apply andb_prop in Hc as [Hcf Hca].
+  - (* Call *) assert (Hc' : core (Call e args kws) = true) by exact Hc. clear Hc.
+    apply core_call in Hc' as [Hcf Hm].
+    assert (Hold : forallb core args = true ->
+                   forallb (fun kw => core (snd kw) && negb (is_starred (snd kw))) kws = true ->
+                   Ev (MExpr n) (pbody (Call e args kws) ++ rest) res).
+    { intros Hca Hck. cbn [pbody].
+      destruct (P_use e IHe Hcf) as [C [N A]]. cbn [node_prec] in Hp.
+      unfold Pl in H. pose proof (Forall_P_elems _ H Hca) as HFa. pose proof (Forall_P_kws _ H0 Hck) as HFk.
+      rewrite <- app_assoc. cbn [app]. rewrite <- app_assoc.
+      apply (child_of_A e C N A slot_Call_func n).
+      + intros Hle. split.
+        * assert (G : node_prec e <= node_prec_Call).
+          { apply (np_small slot_Call_func node_prec_Call e); [vm_compute; reflexivity|exact C|exact Hle]. }
+          lia.
+        * apply (safe_of_rest_ok e C slot_Attribute_value); [exact Hle|apply ctx_trailer; reflexivity].
+      + assert (Hitems : forall s, s <= TOP -> (args <> [] \/ kws <> []) ->
+                  Ev (MArgs [] []) (join [PK ","] (map (pp s) args ++ map kwp kws) ++ PK ")" :: rest)
+                     (Call (Name "") args kws, rest)).
+        { intros s Hsl Hne.
+          replace (map (pp s) args ++ map kwp kws) with (map itoks (map (IPos s) args ++ map IKw kws))
+            by (rewrite map_app, !map_map; reflexivity).
+          pose proof (items_chain rest (map (IPos s) args ++ map IKw kws) [] []) as HI.
+          rewrite fold_left_app, fold_pos, fold_kw in HI. cbn [fst snd] in HI. rewrite !app_nil_r in HI.
+          unfold args_carrier in HI. rewrite !rev_involutive in HI. apply HI.
+          - destruct Hne as [Hne|Hne]; [destruct args; [contradiction|discriminate]|destruct kws; [contradiction|]].
+            destruct args; discriminate.
+          - apply Forall_app. split; [|exact HFk]. rewrite Forall_forall in HFa |- *. intros i Hi.
+            apply in_map_iff in Hi as [a [<- Ha]]. split; [apply HFa; exact Ha|exact Hsl]. }
+        eapply Ev_loop_call; [|exact Hloop].
+        destruct args as [|x [|y t]]; destruct kws as [|k1 kt].
+        * cbn [map join app]. apply (Ev_args_close [] []).
+        * apply (Hitems slot_Call_arg); [vm_compute; lia|right; discriminate].
+        * cbn [app]. change (pp slot_Call_onlyarg x) with (join [PK ","] (map (pp slot_Call_onlyarg) [x] ++ map kwp [])).
+          apply (Hitems slot_Call_onlyarg); [apply Nat.le_refl|left; discriminate].
+        * apply (Hitems slot_Call_arg); [vm_compute; lia|left; discriminate].
+        * apply (Hitems slot_Call_arg); [vm_compute; lia|left; discriminate].
+        * apply (Hitems slot_Call_arg); [vm_compute; lia|left; discriminate]. }
+    cbn [pbody] in Hold.
+    destruct Hm as [[x [gs [-> [-> Hm]]]]|[Ha Hk]]; [|apply Hold; assumption].
+    (* f(x for x in y) *)
+    clear Hold. inversion H as [|? ? Hgen _]; subst. cbn beta iota in Hgen.
+    destruct (Hgen Hm) as [_ Harg].
     destruct (P_use e IHe Hcf) as [C [N A]]. cbn [node_prec] in Hp.
-    unfold Pl in H. pose proof (Forall_P_elems _ H Hca) as HFa. pose proof (Forall_P_kws _ H0 Hck) as HFk.
     rewrite <- app_assoc. cbn [app]. rewrite <- app_assoc.
     apply (child_of_A e C N A slot_Call_func n).
     + intros Hle. split.
@@ -1712,28 +1782,8 @@ Proof.
         { apply (np_small slot_Call_func node_prec_Call e); [vm_compute; reflexivity|exact C|exact Hle]. }
         lia.
       * apply (safe_of_rest_ok e C slot_Attribute_value); [exact Hle|apply ctx_trailer; reflexivity].
-    + assert (Hitems : forall s, s <= TOP -> (args <> [] \/ kws <> []) ->
-                Ev (MArgs [] []) (join [PK ","] (map (pp s) args ++ map kwp kws) ++ PK ")" :: rest)
-                   (Call (Name "") args kws, rest)).
-      { intros s Hsl Hne.
-        replace (map (pp s) args ++ map kwp kws) with (map itoks (map (IPos s) args ++ map IKw kws))
-          by (rewrite map_app, !map_map; reflexivity).
-        pose proof (items_chain rest (map (IPos s) args ++ map IKw kws) [] []) as HI.
-        rewrite fold_left_app, fold_pos, fold_kw in HI. cbn [fst snd] in HI. rewrite !app_nil_r in HI.
-        unfold args_carrier in HI. rewrite !rev_involutive in HI. apply HI.
-        - destruct Hne as [Hne|Hne]; [destruct args; [contradiction|discriminate]|destruct kws; [contradiction|]].
-          destruct args; discriminate.
-        - apply Forall_app. split; [|exact HFk]. rewrite Forall_forall in HFa |- *. intros i Hi.
-          apply in_map_iff in Hi as [a [<- Ha]]. split; [apply HFa; exact Ha|exact Hsl]. }
-      eapply Ev_loop_call; [|exact Hloop].
-      destruct args as [|x [|y t]]; destruct kws as [|k1 kt].
-      * cbn [map join app]. apply (Ev_args_close [] []).
-      * apply (Hitems slot_Call_arg); [vm_compute; lia|right; discriminate].
-      * cbn [app]. change (pp slot_Call_onlyarg x) with (join [PK ","] (map (pp slot_Call_onlyarg) [x] ++ map kwp [])).
-        apply (Hitems slot_Call_onlyarg); [apply Nat.le_refl|left; discriminate].
-      * apply (Hitems slot_Call_arg); [vm_compute; lia|left; discriminate].
-      * apply (Hitems slot_Call_arg); [vm_compute; lia|left; discriminate].
-      * apply (Hitems slot_Call_arg); [vm_compute; lia|left; discriminate].
+    + eapply Ev_loop_call; [|exact Hloop]. rewrite pp_unfold.
+      change (Nat.ltb slot_Call_onlyarg (node_prec (GeneratorExp x gs))) with false. cbn [pparen app]. apply Harg.
   - (* NamedExpr *) destruct (P_use e IHe Hc) as [C [N A]].
     cbn [safe] in Hs. apply safe_parts in Hs as [He Hsub]. cbn [node_prec] in Hp. cbn [app].
     eapply Ev_expr_wal; [exact Hp| |exact Hloop].
@@ -1791,6 +1841,33 @@ Proof.
     + reflexivity.
     + rewrite gtoks_cons, gtok_unfold. apply closed_child; [exact C|exact N|exact A|reflexivity|left; apply Nat.le_refl].
     + rewrite <- gtok_unfold, <- gtoks_cons. apply (gens_chain "}" rest eq_refl eq_refl _ [] HG).
+  - (* GeneratorExp: inside its own parentheses, and bare as the only argument of a call *)
+    unfold gen_core, ecore, gens_core in Hc. apply andb_prop in Hc as [Hc Hgs]. apply andb_prop in Hc as [Hcx Hlen].
+    destruct (P_use e IHe Hcx) as [C [N A]]. pose proof (Forall_P_gens _ H Hgs) as HG.
+    destruct gs as [|g1 gt]; [discriminate|].
+    destruct g1 as [[[t1 i1] ifs1] a1]. inversion HG as [|? ? Hg1 _]; subst. destruct Hg1 as [-> _].
+    assert (Hfirst : forall rest, Ev (MExpr TOP) (pp slot_GeneratorExp_elt e ++ gtoks ((t1, i1, ifs1, false) :: gt) ++ PK ")" :: rest)
+                        (e, gtoks ((t1, i1, ifs1, false) :: gt) ++ PK ")" :: rest)).
+    { intros rest. rewrite gtoks_cons, gtok_unfold. apply closed_child; [exact C|exact N|exact A|reflexivity|left; apply Nat.le_refl]. }
+    assert (Hgens : forall rest, Ev (MGens []) (gtoks ((t1, i1, ifs1, false) :: gt) ++ PK ")" :: rest)
+                      (GeneratorExp (Name "") ((t1, i1, ifs1, false) :: gt), PK ")" :: rest)).
+    { intros rest. apply (gens_chain ")" rest eq_refl eq_refl _ [] HG). }
+    split; intros rest; cbn [pbody]; rewrite <- app_assoc.
+    + eapply (Ev_elems_comp ")" false _ e _ (Name "")).
+      * apply pp_head_not_key; [exact C|reflexivity].
+      * apply pp_head_nostar; assumption.
+      * exact N.
+      * reflexivity.
+      * specialize (Hfirst rest). rewrite gtoks_cons, gtok_unfold in Hfirst |- *. exact Hfirst.
+      * specialize (Hgens rest). rewrite gtoks_cons, gtok_unfold in Hgens. exact Hgens.
+    + eapply (Ev_args_gen _ e _ (Name "")).
+      * apply pp_head_not_key; [exact C|reflexivity].
+      * apply pp_head_not_key; [exact C|reflexivity].
+      * apply pp_head_nostar; assumption.
+      * apply pp_nokw; [exact C|]. rewrite gtoks_cons, gtok_unfold. reflexivity.
+      * apply Hfirst.
+      * rewrite gtoks_cons, gtok_unfold. reflexivity.
+      * apply Hgens.
   - (* DictComp *) apply andb_prop in Hc as [Hc Hgs]. apply andb_prop in Hc as [Hc Hlen]. apply andb_prop in Hc as [Hck Hcv].
     destruct (P_use e1 IHe1 Hck) as [Ck [Nk Ak]]. destruct (P_use e2 IHe2 Hcv) as [Cv [Nv Av]].
     pose proof (Forall_P_gens _ H Hgs) as HG.
@@ -1830,4 +1907,24 @@ Proof.
   apply (child_of_A e Hc Hns HA slot_top slot_top [] (e, [])).
   - intros Hle. split; [exact Hle|]. apply (safe_of_rest_ok e Hc slot_top); [exact Hle|vm_compute; reflexivity].
   - apply Ev_loop_stop. reflexivity.
+Qed.
+
+(* a generator expression as a whole expression: (x for x in y) *)
+Theorem roundtrip_gen : forall e, gen_core e = true ->
+  exists f0, forall f, f0 <= f -> pc f (MExpr slot_top) (pp slot_top e) = Some (e, []).
+Proof.
+  intros e0 Hc.
+  assert (Hx : exists x gs, e0 = GeneratorExp x gs) by (destruct e0; try discriminate Hc; eexists _, _; reflexivity).
+  destruct Hx as [x [gs ->]].
+  destruct (A_all (GeneratorExp x gs) Hc) as [Hpar _].
+  rewrite pp_unfold. change (Nat.ltb slot_top (node_prec (GeneratorExp x gs))) with true. cbn [pparen].
+  change (PK "(" :: pbody (GeneratorExp x gs) ++ [PK ")"]) with (PK "(" :: pbody (GeneratorExp x gs) ++ PK ")" :: []).
+  eapply Ev_expr_atom; [reflexivity|apply Ev_atom_paren'; apply Hpar|apply Ev_loop_stop; reflexivity].
+Qed.
+
+Theorem roundtrip_core_top : forall e, core_top e = true ->
+  exists f0, forall f, f0 <= f -> pc f (MExpr slot_top) (pp slot_top e) = Some (e, []).
+Proof.
+  intros e H. apply orb_prop in H as [H|H]; [|apply roundtrip_gen; exact H].
+  apply andb_prop in H as [Hc Hs]. apply negb_true_iff in Hs. apply roundtrip_core; assumption.
 Qed.
